@@ -18,6 +18,9 @@
 #ifndef KMAX
 #define KMAX 3
 #endif
+#ifndef OPS_LATER
+#define OPS_LATER OPS_PER_EVAL   // scheduler actions in the second and later evaluations
+#endif
 #ifndef WIN
 #define WIN 7
 #endif
@@ -115,7 +118,7 @@ struct Ops {
         ok_queries &= (s.is_scheduled_now() == due);
         g_now = now;
         if (g_evals <= NEVALS) {
-            for (int k = 0; k < OPS_PER_EVAL; k++) {
+            for (int k = 0; k < (g_evals == 1 ? OPS_PER_EVAL : OPS_LATER); k++) {
                 // one enumerated action: 0-2 schedule(delta, tag none/a/b); 3 un_schedule(); 4-5 un_schedule(a/b);
                 // 6-7 pop_tag(a/b); 8 reset; 9 nothing
                 int act = verif_choice("act", 10);
